@@ -29,7 +29,8 @@ Run(proto, method, v6, mn, mx, q, e) ==
     [hostname |-> IF v6 THEN T6 ELSE T4, port |-> IF proto = "tcp" THEN 443 ELSE 0, protocol |-> proto, tcp_method |-> method, want_v6 |-> v6,
      min_ttl |-> mn, max_ttl |-> mx, delay_ms |-> 20, timeout_ms |-> 300, queries |-> q, e2e |-> e,
      listen_port |-> IF proto = "tcp" /\ method \in {"sack", "prefer_sack"} THEN 443 ELSE 0,
-     reverse_dns |-> FALSE, public_ip |-> FALSE, pub_mode |-> "ok", skip_private |-> FALSE, paris |-> FALSE, via |-> "lib", query |-> ""]
+     reverse_dns |-> FALSE, public_ip |-> FALSE, pub_mode |-> "ok", skip_private |-> FALSE, paris |-> FALSE, via |-> "lib", query |-> "",
+     dns |-> [x \in {} |-> ""]]
 
 Protos == { <<"icmp", "", FALSE>>, <<"icmp", "", TRUE>>, <<"udp", "", FALSE>>, <<"udp", "", TRUE>>,
             <<"tcp", "syn", FALSE>>, <<"tcp", "sack", FALSE>>, <<"tcp", "prefer_sack", FALSE>> }
@@ -141,8 +142,29 @@ C11All(u) ==
               cs \in { <<[m |-> 255, n |-> 4], [m |-> 255, n |-> 4], [m |-> 30, n |-> 8], [m |-> 1, n |-> 8]>>, <<[m |-> 30, n |-> 20], [m |-> 30, n |-> 20]>> } }
 
 ---------------------------------------------------------------------------
+(* C17 over the wire: routers carrying private / boundary addresses, through RunTraceroute and the HTTP handler, with and *)
+(* without reverse-DNS enrichment (stub resolver returning names for private addresses too)                                *)
+PrivRouters == << "10.0.0.1", "172.16.0.1", "172.32.0.1", "192.168.255.255", "192.169.0.0", "9.255.255.255" >>
+C17Run(pr, via, skip, rdns) ==
+    [id |-> "C17/run/" \o pr[1] \o pr[2] \o "/" \o via \o "/" \o (IF skip THEN "skip" ELSE "keep") \o (IF rdns THEN "/rdns" ELSE ""),
+     label |-> "wire/" \o pr[1] \o pr[2] \o "/" \o via \o (IF skip THEN "" ELSE "/keep") \o (IF rdns THEN "/rdns" ELSE ""),
+     kind |-> "run", sack_perm |-> TRUE, isn32 |-> <<4660, 1>>,
+     extra |-> [expect17 |-> [skip |-> skip, rdns |-> rdns,
+                              routers |-> PrivRouters, private |-> <<TRUE, TRUE, FALSE, TRUE, FALSE, FALSE>>]],
+     run |-> [Run(pr[1], pr[2], FALSE, 1, 8, 2, 1) EXCEPT !.skip_private = skip, !.reverse_dns = rdns, !.via = via,
+                !.dns = [x \in {"*"} |-> "name-of-hop"],
+                !.query = "target=" \o T4 \o "&protocol=" \o pr[1] \o "&tcp-method=" \o pr[2] \o "&port=443&max-ttl=8&timeout=300&traceroute-queries=2&e2e-queries=1"
+                          \o "&skip-private-hops=" \o (IF skip THEN "true" ELSE "false") \o "&reverse-dns=" \o (IF rdns THEN "true" ELSE "false")],
+     path |-> PathOf([t \in 1..8 |->
+                IF t = 8 THEN (IF pr[1] = "tcp" THEN <<[form |-> "sack", delay_us |-> 9000], [form |-> "synack", delay_us |-> 9000]>> ELSE <<[form |-> DestFormOf(pr[1], ""), delay_us |-> 9000]>>)
+                ELSE IF t = 7 THEN <<>> ELSE <<[form |-> "te", from |-> PrivRouters[t], delay_us |-> 1000 * t]>>])]
+C17All(u) == { C17Run(pr, via, sk, rd) : pr \in {<<"icmp", "", FALSE>>, <<"udp", "", FALSE>>, <<"tcp", "syn", FALSE>>, <<"tcp", "sack", FALSE>>},
+                 via \in {"lib", "http"}, sk \in BOOLEAN, rd \in BOOLEAN }
+
+---------------------------------------------------------------------------
 Cases == CASE Gen = "C15" -> C15All(0)
            [] Gen = "C11" -> C11All(0)
+           [] Gen = "C17" -> C17All(0)
            [] Gen = "C19" -> C19All(0)
            [] Gen = "C20" -> C20All(0)
            [] OTHER -> {}
